@@ -123,8 +123,11 @@ class SymbolCodePrinter(StrPrinter):  # type: ignore[misc]
         if denom.is_Mul:
             denom_args = [a for a in denom.args if a != S.One]
             mul_in_denom = len(denom_args) > 1
+        # a fraction in the denominator is printed with a slash itself, hence the brackets
+        fraction_in_denom = (denom.is_Rational and not denom.is_Integer) or (denom.is_Pow and
+            fraction(denom, exact=True)[1] != S.One)
         sdenom_str = f"({sdenom})" if needs_mul_brackets(denom, first=False,
-            last=True) or mul_in_denom else sdenom
+            last=True) or mul_in_denom or fraction_in_denom else sdenom
         tex = f"{snumer_str} / {sdenom_str}"
         return tex
 
@@ -195,15 +198,18 @@ class SymbolCodePrinter(StrPrinter):  # type: ignore[misc]
     def _print_Add(self, expr: Expr, _order: bool = False) -> str:
         tex = ""
         for i, term in enumerate(expr.args):
+            # a sum that is left after extracting the minus sign of a term needs brackets
+            negated = False
             if i == 0:
                 pass
             elif term.could_extract_minus_sign():
                 tex += " - "
                 term = -term
+                negated = True
             else:
                 tex += " + "
             term_tex = self._print(term)
-            if needs_add_brackets(term):
+            if needs_add_brackets(term) or (negated and term.is_Add):
                 term_tex = f"({term_tex})"
             tex += term_tex
 
